@@ -198,7 +198,32 @@ ADDENDA = {
 }
 
 
+ADDENDA4 = {
+    "C01": "The INT and HEX$ contracts are discharged on the text of the runtime library (ecb_int = floor, every hex digit, no leading zeros; vf/props/contracts.py).",
+    "C02": "Round 4: ELSE IF chains whose arms are line numbers after a statement THEN part; lone THEN GOSUB / THEN GOTO.",
+    "C03": "The STR$ contract (result ends with the last digit) is discharged on the library text too.",
+    "C04": "Also: the program's display_t / play_t declarations agree field for field with the library's (record fields read by name).",
+    "C05": "Also: contexts where the target is an operand of the call, and READ targets while an empty DATA item is present.",
+    "C06": "Also: label rules with the standard prefix on; missing targets above 32699 from every jump-bearing statement kind.",
+    "C07": "Also: hex literals of value zero; bundle round trip (statements after `procedure prog` = output without dependencies, parsable) for literals with control characters and comment markers.",
+    "C08": "Also: 22 kinds of last token directly followed by the final line end / blank line / trailing NUL.",
+    "C09": "Also: reserved words inside or at the end of names; string capacity per kind under -s 40; z3 name-language query with a short time-out.",
+    "C10": "Also: DIM statements whose string sizes interleave; concrete-size fallback when the integer proxy cannot be followed.",
+    "C11": "Also: with filtering on every jump target of the output is still a label.",
+    "C12": "Also: decoder history - two well-formed pictures per format decoded in one process equal their fresh-process decodes.",
+    "C15": "Also: overflowing / denormal / 20-digit literals substituted at every numeric token.",
+    "C16": "Also: announced MAX / Newsroom size = what the header bytes dictate on every ok path (replayed); decoder history for HRS / PIX / MAX / MGE.",
+    "C17": "Also: CM3 second-stream length bytes larger than needed; decoder history for RAT / CM3.",
+    "C18": "Also: the decoders' command lines hand -w / -r / -s / pixel-mode / -i / -newsroom to convert() as documented (recording stub, all flag combinations), invalid values are refused, MAX removes the output after a failed conversion unless -i.",
+    "C19": "Also: success implies width * rows / 8 = length field for widths that are not multiples of 8.",
+    "C20": "Also: filter call sites over several DATA statements (empty item in the first / middle / last statement, after the READ, with hex items).",
+}
+
+
 def build():
+    for pid, add in ADDENDA4.items():
+        if add not in CHECKS[pid]["text"]:
+            CHECKS[pid]["text"] = CHECKS[pid]["text"].rstrip() + " " + add
     for pid, add in ADDENDA.items():
         if add not in CHECKS[pid]["text"]:
             CHECKS[pid]["text"] = CHECKS[pid]["text"].rstrip() + " " + add
